@@ -1569,7 +1569,7 @@ def isolate(case):
     return False
 
 
-def run_model_parallel(drv, lines, nproc=6):
+def run_model_parallel(drv, lines, nproc=10):
     """the cases are independent: deal them round-robin to nproc model processes"""
     if len(lines) < 200:
         nproc = 1
